@@ -67,8 +67,36 @@ emit('sleep.go', add_import(s, 'sleep.go'))
 
 # 2. TaskRunner.Go -> optionally inline
 s = load('taskrunner.go')
-s = insert_after(s, 'taskrunner.go', 'func (tr *TaskRunner) Go(task func() error) {', 'if vhook.InlineTasks() {\n\t\tverifErr := task()\n\t\ttask = func() error { return verifErr }\n\t}', True)
+s = insert_after(s, 'taskrunner.go', 'func (tr *TaskRunner) Go(task func() error) {', 'if vhook.InlineTasks() {\n\t\tverifErr := task()\n\t\ttask = func() error { return verifErr }\n\t} else if verifH := vhook.TaskSpawn(tr.verifLimit); verifH != nil {\n\t\tverifTask := task\n\t\ttask = func() error {\n\t\t\tverifH.Start()\n\t\t\tdefer verifH.End()\n\t\t\treturn verifTask()\n\t\t}\n\t}', True)
+s = insert_after(s, 'taskrunner.go', 'func (tr *TaskRunner) Wait() error {', 'vhook.TaskJoin()', True)
+if 'type TaskRunner struct {\n' not in s or '\treturn &TaskRunner{\n' not in s:
+    print('instr: ESSENTIAL anchor missing in taskrunner.go: TaskRunner struct / constructor literal', file=sys.stderr); sys.exit(2)
+s = s.replace('type TaskRunner struct {\n', 'type TaskRunner struct {\n\tverifLimit int\n', 1)
+s = s.replace('\treturn &TaskRunner{\n', '\treturn &TaskRunner{\n\t\tverifLimit: maxThreadCount,\n', 1)
 emit('taskrunner.go', add_import(s, 'taskrunner.go'))
+
+# 2a. sop.Retry backs off in REAL time inside go-retry (1s,1s,2s,3s,5s): route the waits through sop.Sleep so that
+# they are virtual sleeps (and scheduling points) under a scheduler, and unchanged real sleeps otherwise
+s = load('retry.go')
+anchor = '\tb := retry.NewFibonacci(RetryStartDuration)\n'
+if anchor not in s:
+    print('instr: ESSENTIAL anchor missing in retry.go: retry.NewFibonacci(RetryStartDuration)', file=sys.stderr); sys.exit(2)
+s = s.replace(anchor, anchor + '\tverifInner := b\n\tb = retry.BackoffFunc(func() (time.Duration, bool) {\n\t\td, stop := verifInner.Next()\n\t\tif !stop {\n\t\t\tSleep(ctx, d)\n\t\t}\n\t\treturn 0, stop\n\t})\n', 1)
+emit('retry.go', s)
+
+# 2b. the replication tracker holds a real RWMutex across L2 cache calls: mark those regions so that a cooperative
+# scheduler does not park a thread that holds it (any other thread needing the mutex would block for real)
+for rel in ['fs/replicationtracker.go', 'fs/replicationtracker.reinstatefaileddrives.go']:
+    s = load(rel)
+    n0 = len(re.findall(r'globalReplicationDetailsLocker\.R?(?:Lock|Unlock)\(\)', s))
+    s = re.sub(r'^(\t+)defer globalReplicationDetailsLocker\.(R?)Unlock\(\)\n', r'\1defer func() { vhook.Hold(-1); globalReplicationDetailsLocker.\2Unlock() }()\n', s, flags=re.M)
+    s = re.sub(r'^(\t+)globalReplicationDetailsLocker\.(R?)Lock\(\)\n', r'\1globalReplicationDetailsLocker.\2Lock()\n\1vhook.Hold(1)\n', s, flags=re.M)
+    s = re.sub(r'^(\t+)globalReplicationDetailsLocker\.(R?)Unlock\(\)\n', r'\1vhook.Hold(-1)\n\1globalReplicationDetailsLocker.\2Unlock()\n', s, flags=re.M)
+    n1 = s.count('vhook.Hold(')
+    if n0 != n1:
+        print(f'instr: {rel}: {n0} lock operations but {n1} Hold marks', file=sys.stderr); sys.exit(2)
+    if n0:
+        emit(rel, add_import(s, rel))
 
 # 3. virtual clock in the in-memory L2 cache
 for rel in ['cache/l2inmemorycache.go', 'cache/l2inmemorycache.sharded_map.go']:
